@@ -10,7 +10,7 @@ BASE = {
     "add": 3.0, "scale": 1.5, "unary": 1.5, "apply": 2.5,
     "canonicalise": 1.2, "ensure": 1.2, "move_qnidx": 1.5, "compress_lossless": 1.0, "normalize": 0.5,
     "truncate": 0.8, "observe": 2.0, "drop": 0.3, "alias_mutate": 0.0, "spill": 0.0, "swap": 0.0, "observe2": 0.3,
-    "dump_load": 0.0, "spill_session": 0.0, "spill_gc": 0.0,
+    "dump_load": 0.0, "spill_session": 0.0, "spill_gc": 0.0, "regauge": 0.8, "contract": 0.6,
 }
 
 TWEAKS = {
@@ -23,7 +23,7 @@ TWEAKS = {
     "C06": {"truncate": 1.5},
     "C14": {"dump_load": 7.0, "spill_session": 4.0, "spill_gc": 2.5, "drop": 0.6, "observe": 0.5, "truncate": 0.5, "mpdm_from_mps": 1.5, "unary": 2.0, "scale": 2.0,
             "canonicalise": 2.0, "ensure": 1.5, "move_qnidx": 2.0},
-    "C13": {"alias_mutate": 1.5, "drop": 1.0, "spill": 0.8, "observe": 3.0, "truncate": 1.0},
+    "C13": {"contract": 2.0, "alias_mutate": 1.5, "drop": 1.0, "spill": 0.8, "observe": 3.0, "truncate": 1.0},
 }
 
 
@@ -44,6 +44,8 @@ class ChainProfile(session.Profile):
             elif rnd.random() < 0.3:
                 wts[k] *= rnd.choice([0.3, 3.0])
         h["weights"] = wts
+        if self.pid in ("C01", "C03", "C07") and rnd.random() < 0.35:
+            h["knobs"]["units_prob"] = 0.6      # swarm knob: operators written in "other units" (overall factor 1e-6 .. 1e9)
         return h
 
     def nsteps(self, rnd, tier):
